@@ -51,7 +51,7 @@ def apply_macro_asserts(text, counts):
     """R3: assert!/assert_eq!/assert_ne!/debug_assert!(..) -> vassert(cond)."""
     out = []
     i = 0
-    pat = re.compile(r'\b(debug_assert|assert_eq|assert_ne|assert)!\s*\(')
+    pat = re.compile(r'\b(debug_assert_eq|debug_assert_ne|debug_assert|assert_eq|assert_ne|assert)!\s*\(')
     while True:
         mm = pat.search(text, i)
         if not mm:
@@ -83,11 +83,20 @@ def apply_macro_asserts(text, counts):
         kind = mm.group(1)
         if kind in ('assert', 'debug_assert'):
             cond = parts[0]
-        elif kind == 'assert_eq':
+        elif kind in ('assert_eq', 'debug_assert_eq'):
             cond = '(%s) == (%s)' % (parts[0], parts[1])
         else:
             cond = '(%s) != (%s)' % (parts[0], parts[1])
         out.append(text[i:mm.start()])
+        if kind == 'debug_assert' or mm.group(0).startswith('debug_assert'):
+            # debug_assert*!: checked in debug builds, NOT EVALUATED AT ALL in release builds --
+            # verified for both (vdebug() is an arbitrary boolean), so an argument with a side
+            # effect (a call that must happen) is only known to run in one of them
+            out.append('if vdebug() { vassert(%s) }' % cond)
+            counts['R3d'] = counts.get('R3d', 0) + 1
+            counts['R3'] = counts.get('R3', 0) + 1
+            i = cl + 1
+            continue
         out.append('vassert(%s)' % cond)
         counts['R3'] = counts.get('R3', 0) + 1
         i = cl + 1
